@@ -59,21 +59,25 @@ CHECK = {'rule': 'three case kinds. crypt: one plaintext (empty, 1, 15-17, 4095-
                               'style:copy-plain',
                               'style:read+copy',
                               'style:read+writeto',
-                              'style:readfull+readall']},
+                              'style:readfull+readall',
+                              'tenants']},
  'tiers': {'quick': [{'test': '^TestProp$', 'checks': 170, 'shards': 8, 'timeout': 240},
                      {'test': '^TestPropNS$', 'checks': 1200, 'shards': 2, 'timeout': 240},
                      {'test': '^TestPropBytes$', 'checks': 3000, 'shards': 1, 'timeout': 240},
-                     {'test': '^TestEnum$', 'shards': 2, 'timeout': 240}],
+                     {'test': '^TestEnum$', 'shards': 2, 'timeout': 240},
+                     {'test': '^TestPropTenants$', 'checks': 120, 'shards': 2, 'timeout': 240, 'seed_offset': 300}],
            'thorough': [{'test': '^TestProp$', 'checks': 4000, 'shards': 16, 'timeout': 3000},
                         {'test': '^TestPropNS$', 'checks': 5000, 'shards': 16, 'timeout': 3000},
                         {'test': '^TestPropBytes$', 'checks': 60000, 'shards': 4, 'timeout': 3000},
                         {'test': '^TestEnum$', 'shards': 4, 'timeout': 3000},
+                        {'test': '^TestPropTenants$', 'checks': 3000, 'shards': 4, 'timeout': 3000, 'seed_offset': 300},
                         {'test': '^$', 'fuzz': '^FuzzBytes$', 'fuzztime': '120s', 'gomaxprocs': 4, 'timeout': 400}]}}
 
 TEXT = {'technique': 'round-trip / metamorphic property testing (rapid) of encryptfs over memfs, diskfs and a short-reading base: four write x read path '
               'combinations, raw-byte inspection, wrong-key reads, exhaustive truncation and byte corruption of stored blobs <= 128 B (sampled '
               'above), fixed-grid exhaustive single-bit flips, differential name-space histories against the plain base, arbitrary-byte robustness '
-              '(rapid + native fuzz target FuzzBytes)',
+              '(rapid + native fuzz target FuzzBytes); 2-4 filespaces with different keys used concurrently, each on its own base (round-trip per tenant, '
+              'foreign keys rejected afterwards)',
  'level_text': 'Exploration: ~1 400 generated key/plaintext/cipher/base configurations per quick run with ~380 000 wrong-key or tampered reads, '
                'every truncation length and byte offset of small blobs and every single-bit flip on a fixed grid, 2 400 name-space histories '
                'compared with the plain base, ~5 000 concurrently open stream readers with generated interleavings and consumption styles. Cryptographic strength is not assessed - only that AEAD failures surface as errors.',
